@@ -131,7 +131,7 @@ def comp_reps(arch, with_frozen: bool = False) -> Dict[int, Any]:
 
 # ------------------------------------------------------------------ random generator (same grammar, larger)
 def random_arch(rng: random.Random, *, dim: int, max_nodes: int, widths=(2, 3, 4, 6), kernels=(1, 2, 3, 5),
-                allow_excl=False, allow_findings=False, strided=True, reuse=True) -> Dict[str, Any]:
+                allow_excl=False, allow_findings=False, strided=True, reuse=True, nonzero_ops=True) -> Dict[str, Any]:
     c0 = rng.choice([1, 2, 3])
     sp = rng.choice([4, 6, 8]) if dim == 1 else rng.choice([4, 6])
     nodes: List[Dict[str, Any]] = []
@@ -185,7 +185,9 @@ def random_arch(rng: random.Random, *, dim: int, max_nodes: int, widths=(2, 3, 4
                 nodes.append({"op": "relu", "ins": [b + 3]})
                 nodes.append({"op": "add", "ins": [b + 4, b + 2]})
         elif kind == "relu" and len(T) > 1:
-            nodes.append({"op": "relu", "ins": [pick(T[1:])]})
+            # element-wise ops of plinio's "features propagating" list; sigmoid is NOT zero-preserving
+            nodes.append({"op": rng.choices(["relu", "tanh", "silu", "drop", "id", "sig"], weights=[6, 1, 1, 1, 1, 1 if nonzero_ops else 0])[0],
+                          "ins": [pick(T[1:])]})
         elif kind == "pool":
             c = [t for t in nf if t != 0 and sh[t]["sp"] >= 2 and (dim == 1 or sh[t]["spw"] >= 2)]
             if c:
